@@ -129,7 +129,7 @@ def model_timeline(writer):
             if kind == "d":
                 st = coll.apply(shape, st, json.loads(arg))
             elif kind == "inv":
-                st = None
+                st = coll.fresh(shape)
             elif kind == "set" and writer["shape"] == "TS":
                 st = int(arg)
             elif kind == "add":
@@ -437,6 +437,23 @@ def check_record_replay(sc, log0, log1):
         except (IndexError, ValueError, KeyError):
             wshape0 = None
         dict_of_windows = wshape0 is not None and window_below(wshape0)
+        # every tick of the original is in the recording: the dense buffer has one slot per time step, and a cycle in which
+        # the recorded output was modified must not be a hole
+        try:
+            wid0 = int(rec["b1"].split("_")[1])
+        except (IndexError, ValueError):
+            wid0 = None
+        if wid0 is not None:
+            for t in log0["cycles"]:
+                i = t - sc["window"][0]          # the buffer is indexed by the time step since the start of the run
+                wo = log0["W"].get(wid0, {}).get(t)
+                if wo is not None and wo["m"] and wo["v"] and (i >= len(b1) or b1[i] is None):
+                    wsh = coll.SHAPES[[w for w in sc["writers"] if w["id"] == wid0][0]["shape"]]
+                    if window_below(wsh):
+                        known = F12          # a tick that only pushed to a window below its minimum count is in no captured delta
+                        continue
+                    return ("tick_not_recorded", "cycle %d (t=%d): the recorded output ticked (value %s) but the recording %s has no entry for that cycle" % (
+                        i, t, json.dumps(wo["val"])[:120], rec["b1"])), stats, known
         stats["recorded_ticks"] += sum(1 for x in b1 if x is not None)
         stats["probe_holes"] += sum(1 for x in b1 if x is None)
         for name, other in (("mirror", b1m), ("replay", b2)):
